@@ -44,6 +44,7 @@ fn mk(property: &str, mode: &str, label: &str, cfg: Cfg, prefix: Vec<Op>, alphab
         reopen_cfg: None,
         oom_tolerant: false,
         vacuum_with_sessions: false,
+        census_end: false,
     };
     let p = CrashParams { seq, mode: mode.into(), nested, triggers: ids.iter().filter(|s| s.starts_with("KT-")).cloned().collect() };
     Search {
